@@ -167,6 +167,10 @@ def streams(ctx):
     variants += [
         ('len=max+1', frame(vic, length=MAXLEN + 1)), ('len=2^32-1', frame(vic, length=2**32 - 1)),
         ('len=max-header-only', MAGIC + struct.pack(">I", MAXLEN)), ('len=0', frame(b'')),
+        # over-limit lengths made of the magic's own bytes (the magic repeated; each magic byte as the most significant byte)
+        ('len=magic', frame(vic, length=int.from_bytes(MAGIC, 'big'))),
+    ] + [('len=%02x0000%02x' % (mb, len(vic)), frame(vic, length=(mb << 24) | len(vic))) for mb in sorted(set(MAGIC))] + [
+        ('len=magic-then-frame', MAGIC + frame(vic)),
         ('len=0-then-payload', frame(vic, length=0)),
         ('len-short-5', frame(vic, length=len(vic) - 5)), ('len-short-1', frame(vic, length=len(vic) - 1)),
         ('len-long-3', frame(vic, length=len(vic) + 3)), ('len-long-8', frame(vic, length=len(vic) + 8)),
